@@ -95,8 +95,15 @@ MkCtx(cx, c) ==
       gs |-> gs, has |-> has]
 
 \* ---- judging ---------------------------------------------------------------------
+Entry == Batch[tid]
+StrictBudget == "strict" \in DOMAIN Entry /\ Entry.strict = 1
+
+\* The source semantics gives up after Fuel loop iterations / calls ("inconclusive"), so a source that reaches a verdict
+\* did little work; a text that is still running after MaxSteps instructions then (MaxSteps is set far above what Fuel
+\* iterations of the largest generated body cost) does not terminate where the source does.
 Compare(w, g) ==
-  IF w.class = "inconclusive" \/ g.class = "inconclusive" THEN "inconclusive"
+  IF w.class # "inconclusive" /\ g.class = "inconclusive" /\ StrictBudget THEN "runs-on-where-the-source-ends"
+  ELSE IF w.class = "inconclusive" \/ g.class = "inconclusive" THEN "inconclusive"
   ELSE IF w.class # g.class THEN "verdict-class"
   ELSE IF w.class = "fail" THEN "ok"
   ELSE IF w.ret # g.ret THEN "return-value"
@@ -105,7 +112,6 @@ Compare(w, g) ==
   ELSE IF w.itxns # g.itxns THEN "itxns"
   ELSE "ok"
 
-Entry == Batch[tid]
 Text == Entry.texts[k]
 
 RECURSIVE JoinS(_, _)
